@@ -174,8 +174,9 @@ def run(ck):
              "output, and into nil / non-pointer / nil-pointer targets; documents through the entry points one after "
              "the other and from 8 goroutines; the file-level entry points (ReadFile, ReadFileMaybeJSON, "
              "ReadSeriesFile) on documents with trailing content; objects of 13..40 members with repeated keys (the same "
-             "key bare and quoted), in JSONx and in plain JSON: the emitted JSON must list keys and scalars in source "
-             "order and denote what encoding/json reads. A case is trivial if its input is empty or it was rejected; distinct = distinct "
+             "key bare and quoted), in JSONx and in plain JSON: of a repeated key the occurrence that is last in the source (the "
+             "one that wins) must be last in the emitted JSON, which must denote what encoding/json reads (a "
+             "re-ordering of distinct keys keeps the meaning and is not flagged). A case is trivial if its input is empty or it was rejected; distinct = distinct "
              "(operation, input bytes).",
         assumptions=["strconv.ParseFloat / json.Marshal(float64) satisfy the shortest-round-trip law",
                      "a Go string that is not valid UTF-8 denotes its U+FFFD-sanitised form"])
